@@ -588,6 +588,19 @@ class Node:
             self.invalidate(out)
             return {"raised": type(e).__name__}
 
+    def op_twice(self, op):
+        """['twice', None, inner_op]: run the op; if it fails on its own, run it again at once.
+        An operation that was aborted must not change what its repetition does: the second
+        attempt has to fail the same way."""
+        inner = op[2]
+        r1 = self.run(inner)
+        if "raised" not in r1:
+            if "ok" in r1:
+                return r1["ok"]
+            raise Skip(r1.get("skip", "skip"))
+        r2 = self.run(inner)
+        return {"first": r1["raised"], "second": r2.get("raised") or ("ok" if "ok" in r2 else "skip")}
+
     def op_lowstack(self, op):
         """['lowstack', k, inner_op]: run the op itself (its result counts) with the recursion
         limit squeezed to the current depth + k; a RecursionError propagates as the op's
